@@ -1,5 +1,7 @@
 """C16 — queries are pure and observations stay coherent under in-place updates."""
 import copy as _copy
+import functools
+import inspect
 import json
 import random as _random
 from datetime import timedelta, timezone
@@ -52,6 +54,159 @@ def _plain(props):
     return {k: v for k, v in props.items() if isinstance(v, (int, list))}
 
 
+# ---- every public read-only attribute / method of the class, enumerated from the live library -----------------------
+
+MUTATORS = {'set_dt', 'buffer_dt', 'strip_dt', 'set_property'}
+SHAPE_PARAMS = {'shape', 'other', 'geoshape'}
+COORD_PARAMS = {'coord', 'coordinate'}
+
+
+class StubWriter:
+    """stands in for a pyshp writer: records what it is given"""
+    def __init__(self):
+        self.calls = []
+
+    def __getattr__(self, name):
+        def rec(*a, **k):
+            self.calls.append((name, canon(a)))
+            return name
+        return rec
+
+
+def _required(fn):
+    try:
+        sig = inspect.signature(fn)
+    except (TypeError, ValueError):
+        return None, False
+    req = [p.name for p in sig.parameters.values()
+           if p.default is p.empty and p.kind in (p.POSITIONAL_ONLY, p.POSITIONAL_OR_KEYWORD) and p.name != 'self']
+    takes_k = any(p.kind == p.VAR_KEYWORD or p.name == 'k' for p in sig.parameters.values())
+    return req, takes_k
+
+
+def observers(obj):
+    """protocol tokens `r:x_<name>[@k]` / `q:x_<name>` (needs the argument shape) for every public observer of the class"""
+    out = []
+    cls = type(obj)
+    for n in sorted(dir(cls)):
+        if n.startswith('_') or n in MUTATORS:
+            continue
+        raw = inspect.getattr_static(cls, n)
+        if isinstance(raw, (classmethod, staticmethod)):
+            continue
+        if isinstance(raw, (property, functools.cached_property)) or not callable(raw):
+            out.append(f'r:x_{n}')
+            continue
+        req, takes_k = _required(raw)
+        if req is None or any(r not in SHAPE_PARAMS | COORD_PARAMS | {'dt', 'writer'} for r in req):
+            continue
+        pre = 'q' if any(r in SHAPE_PARAMS | COORD_PARAMS for r in req) else 'r'
+        out.append(f'{pre}:x_{n}')
+        if takes_k:
+            out.append(f'{pre}:x_{n}@k')
+    return out
+
+
+def call_observer(obj, token, arg):
+    name, _, var = token.partition('@')
+    raw = inspect.getattr_static(type(obj), name)
+    try:
+        if isinstance(raw, (property, functools.cached_property)) or not callable(raw):
+            val = getattr(obj, name)
+        else:
+            req, _tk = _required(raw)
+            args = []
+            for r in req:
+                args.append(arg if r in SHAPE_PARAMS else arg.centroid if r in COORD_PARAMS
+                            else og.mk_datetime(T0 + 5) if r == 'dt' else StubWriter())
+            _random.seed(12345)
+            val = getattr(obj, name)(*args, **({'k': 8} if var == 'k' else {}))
+            if args and isinstance(args[0], StubWriter):
+                val = [val, args[0].calls]
+        return canon(val), val
+    except common.ImplTimeout:
+        raise
+    except Exception as e:  # noqa  -- an observer that cannot be called here must at least fail the same way each time
+        return 'raises ' + type(e).__name__, None
+
+
+def _is_shape(x):
+    return hasattr(x, '_properties') and hasattr(x, 'dt') and hasattr(x, 'to_wkt')
+
+
+def canon(v, depth=0):
+    """canonical, comparable rendering of whatever an observer returns"""
+    g, _, TimeInterval = og.G()
+    if v is None or isinstance(v, (bool, int, str)):
+        return v
+    if isinstance(v, float):
+        return repr(v)
+    if isinstance(v, g.Coordinate):
+        return ['coord'] + [repr(x) for x in _ck(v)]
+    if isinstance(v, TimeInterval):
+        return ['ti', v.start.isoformat(), v.end.isoformat()]
+    if hasattr(v, 'isoformat'):
+        return v.isoformat()
+    if isinstance(v, timedelta):
+        return str(v)
+    if _is_shape(v):
+        return deep_state(v)
+    if isinstance(v, dict):
+        return [[canon(k, depth + 1), canon(x, depth + 1)] for k, x in sorted(v.items(), key=lambda kv: repr(kv[0]))]
+    if isinstance(v, (set, frozenset)):
+        return sorted((canon(x, depth + 1) for x in v), key=repr)
+    if hasattr(v, 'tolist'):
+        return canon(v.tolist(), depth + 1)
+    if hasattr(v, 'wkt'):
+        return v.wkt
+    if isinstance(v, (list, tuple)) or hasattr(v, '__next__'):
+        return [canon(x, depth + 1) for x in v] if depth < 8 else '...'
+    return type(v).__name__
+
+
+def deep_state(x):
+    """deep snapshot of the observable state of a shape: every instance attribute that is not a memo (cached_property values,
+    the to_shapely cache, private helpers) — outline / vertices / holes / members / defining fields / dt / properties"""
+    g, _, TimeInterval = og.G()
+    if isinstance(x, g.Coordinate):
+        return ['coord'] + [repr(v) for v in _ck(x)]
+    if isinstance(x, TimeInterval):
+        return ['ti', x.start.isoformat(), x.end.isoformat()]
+    if _is_shape(x):
+        out = [type(x).__name__]
+        for k, v in sorted(x.__dict__.items()):
+            if k == 'to_shapely' or (k.startswith('_') and k != '_properties'):
+                continue
+            if isinstance(inspect.getattr_static(type(x), k, None), functools.cached_property):
+                continue
+            out.append([k, deep_state(v)])
+        return out
+    if isinstance(x, dict):
+        return [[repr(k), deep_state(v)] for k, v in x.items()]
+    if isinstance(x, (list, tuple)):
+        return [deep_state(v) for v in x]
+    return repr(x)
+
+
+def probe_independent(ret, live, before):
+    """a shape handed out as an independent copy is updated in place in every way: the receiver must not notice"""
+    try:
+        ret.set_property('__probe__', 1)
+        for v in list(ret._properties.values()):
+            if isinstance(v, list):
+                v.append(99)
+        ret.set_dt(og.mk_datetime(T0 + 99))
+        ret.buffer_dt(timedelta(seconds=1))
+        ret.strip_dt()
+        if hasattr(ret, 'holes'):
+            ret.holes.append(og.mk_hole(5))
+    except common.ImplTimeout:
+        raise
+    except Exception:  # noqa
+        pass
+    return json.dumps(deep_state(live)) == before
+
+
 # A read-only call may be handed caller-owned mutable arguments.  One such set lives as long as a history and is handed to
 # every conversion of the live shape, of the argument shape and of returned shapes: a call must leave it untouched, must not
 # hand it back inside its result, must not alter results it returned earlier, and must render the current state whatever
@@ -63,13 +218,15 @@ def new_owned():
     return {'P': _copy.deepcopy(CALLER_PROPS), 'kept': []}
 
 
-def _geojson_digest(obj, owned):
+def _geojson_digest(obj, owned, full=True):
     o = owned if owned is not None else new_owned()
     P = o['P']
-    plain = obj.to_geojson()
     with_p = obj.to_geojson(properties=P)
     kw = {'id': 7, 'include_bbox': False}
-    with_kw = obj.to_geojson(properties=P, **kw)
+    # the explicit read also converts without arguments and with keyword arguments; the per-step observation only with the
+    # caller-owned dict
+    plain = obj.to_geojson() if full else with_p
+    with_kw = obj.to_geojson(properties=P, **kw) if full else with_p
     flags = []
     if P != CALLER_PROPS or kw != {'id': 7, 'include_bbox': False}:
         flags.append('ARGUMENT-CHANGED')
@@ -86,6 +243,23 @@ def _geojson_digest(obj, owned):
 
 def do_read(obj, name, arg=None, owned=None):
     """perform the read-only call, return a canonical digest of its answer"""
+    if name.startswith('x_'):
+        digest, val = call_observer(obj, name[2:], arg)
+        if name in ('x_copy', 'x_split') and val is not None:
+            # promised to be independent of the receiver (split: the members' own containers)
+            before = json.dumps(deep_state(obj))
+            for r in (val if isinstance(val, list) else [val]):
+                if r is obj:
+                    return ['THE-RECEIVER-ITSELF', digest]
+                try:
+                    r.set_property('__probe__', 1)
+                    r.set_dt(og.mk_datetime(T0 + 99))
+                    r.strip_dt()
+                except Exception:  # noqa
+                    pass
+            if json.dumps(deep_state(obj)) != before:
+                return ['RESULT-ALIASES-RECEIVER', digest]
+        return digest
     if name == 'bounds':
         return list(obj.bounds)
     if name == 'centroid':
@@ -100,6 +274,8 @@ def do_read(obj, name, arg=None, owned=None):
         return json.dumps(obj.linear_rings(), default=_ck)
     if name == 'to_geojson':
         return _geojson_digest(obj, owned)
+    if name == 'to_geojson-light':
+        return _geojson_digest(obj, owned, full=False)
     if name == 'to_wkt':
         return obj.to_wkt()
     if name == 'to_shapely':
@@ -227,7 +403,7 @@ def coherence_flags(obj, kind, variant, nseq, exp_dt=LIVE, owned=None):
     flags.append('o' if _ck(obj.centroid) == ref('centroid', lambda: _ck(twin.centroid)) else 's')
     flags.append('o' if (not hasattr(obj, 'area')) or obj.area == ref('area', lambda: twin.area) else 's')
     flags.append('o' if obj.to_shapely().wkt == ref('shapely', lambda: twin.to_shapely().wkt) else 's')
-    rest = ['to_geojson', 'to_wkt', 'repr', 'properties', 'hash', 'times'] + [r for r in ('to_polygon', 'linear_rings', 'circ_rect')
+    rest = ['to_geojson-light', 'to_wkt', 'repr', 'properties', 'hash', 'times'] + [r for r in ('to_polygon', 'linear_rings', 'circ_rect')
                                                                                if r in READS[kind]]
     same = (all(do_read(obj, r, owned=owned) == ref('r:' + r, lambda r=r: do_read(twin, r)) for r in rest) and obj == twin and twin == obj
             # value semantics re-observed on the live object: it collapses with / is found by a fresh equal shape
@@ -275,6 +451,7 @@ def impl(line):
         return f'{observe(live, pristine, kind, variant, nseq, exp[0], owned)}#{obs_arg(full)}'
     out = ['ok#' + obs_both()]
     answers = {}
+    st_live, st_arg = json.dumps(deep_state(live)), json.dumps(deep_state(arg))
     for op in ops:
         p = op.split(':')
         res = 'ok'
@@ -285,6 +462,12 @@ def impl(line):
                 if key in answers and answers[key] != a:
                     res = 'CHANGED'          # the same question, a different answer, nothing updated in between
                 answers[key] = a
+                now_live, now_arg = json.dumps(deep_state(live)), json.dumps(deep_state(arg))
+                if now_live != st_live:
+                    res = 'RECEIVER-CHANGED'          # a read-only call altered the shape it was called on
+                elif now_arg != st_arg:
+                    res = 'ARGUMENT-CHANGED'
+                st_live, st_arg = now_live, now_arg
             else:
                 inplace = p[-1] == '1'
                 mtok = ':'.join(p[1:-1])
@@ -295,14 +478,21 @@ def impl(line):
                         res = 'NOT-SELF'
                     answers = {}
                     exp[0] = new_exp
+                    st_live = json.dumps(deep_state(live))
                 elif ret is live:
                     res = 'ALIAS'
                 else:
                     res = (f'ret:{og.show_fields(ret, pristine)};drv={coherence_flags(ret, kind, variant, nseq, new_exp, owned)}')
+                    if json.dumps(deep_state(live)) != st_live:
+                        res = 'RECEIVER-CHANGED'
+                    elif (ret._properties is live._properties or (hasattr(ret, 'holes') and ret.holes is live.holes)
+                          or not probe_independent(ret, live, st_live)):
+                        res = 'RESULT-ALIASES-RECEIVER'
         except common.ImplTimeout:
             raise
         except Exception as e:  # noqa
             res = common.err_name(e)
+            st_live, st_arg = json.dumps(deep_state(live)), json.dumps(deep_state(arg))
         out.append(f'{res}#{obs_both(p[0] == "q" or op is ops[-1])}')
     return ' | '.join(out)
 
@@ -445,7 +635,8 @@ def area_of(kind, variant, nh, nseq):
 # time bounds are written naive / UTC / in other offsets; `setdtd` passes a datetime, `setdt` a TimeInterval
 UPDATES = ['setdt:_', f'setdt:{T0}:{T0}', f'setdtd:{T0 + 7}', f'setdtd:{T0 + 7}@n', f'setdtd:{T0 + 7}@o120',
            f'setdtd:{T0 + 11}@o-330', f'setdt:{T0 + 5}@o345:{T0 + 90_000_000}@o345', f'setdt:{T0 + 5}@n:{T0 + 90_000_000}',
-           f'setdt:{T0}:{T0 + 1}', f'setdt:{T0 + 5}@zE:{T0 + 3_600_000_000}', f'setdtd:{T0 + 2_400_000_000}@zE', 'buffer:1000000', 'buffer:1', 'buffer:-30000000', 'buffer:-9000000000', 'strip',
+           f'setdt:{T0}:{T0 + 1}', f'setdt:{T0 + 5}@zE:{T0 + 3_600_000_000}', f'setdtd:{T0 + 2_400_000_000}@zE', 'buffer:1000000',
+           'buffer:0', 'buffer:1', 'buffer:-30000000', 'buffer:-9000000000', 'strip',
            'setprop:k=5', 'setprop:n=7', 'setprop:l=[4;5]', 'setprop:k=[]']
 START_DTS = ['_', f'{T0}:{T0}', f'{T0}@n:{T0}@n', f'{T0}:{T0 + 60_000_000}', f'{T0}@o120:{T0 + 60_000_000}@o120',
              f'{T0 + 3}@o-330:{T0 + 3_600_000_000}@n', f'{T0 + 3}:{T0 + 3_600_000_000}@o840',
@@ -461,7 +652,7 @@ def head(kind, variant, nh, dt, props, akind, avariant=0):
             f'{akind} {avariant}')
 
 
-def gen_systematic():
+def gen_systematic(quick=False):
     """every kind x every update in both modes, each surrounded by every applicable read"""
     lines = []
     for ki, kind in enumerate(og.KINDS):
@@ -469,18 +660,31 @@ def gen_systematic():
         for variant in ((0, 1) if kind == 'ring' else (0,)):
             nh = 1 if kind in og.HAS_HOLES else 0
             reads = READS[kind]
-            for u in UPDATES:
+            for ui, u in enumerate(UPDATES):
                 for ip in ('1', '0'):
+                    # quick tier: a rotating window of 5 reads around each update (every read meets a third of the updates),
+                    # thorough tier: all reads around every update
+                    rs = reads if not quick else [reads[(ui * 3 + j + (ip == '0')) % len(reads)] for j in range(5)]
                     ops = []
-                    for r in reads:
+                    for r in rs:
                         ops.append(f'r:{r}')
                     ops.append(f'u:{u}:{ip}')
-                    for r in reads:
+                    for r in rs:
                         ops.append(f'r:{r}')
                     lines.append(head(kind, variant, nh, dt, 'k=1', 'box') + ' ; ' + ' ; '.join(ops))
             # no-op updates: every update on a shape without time bounds / repeated on its own result, both modes
             for ip in ('0', '1'):
                 lines.append(head(kind, variant, nh, '_', 'k=1', 'point') + ' ; ' + ' ; '.join(f'u:{u}:{ip}' for u in ['strip', 'setdt:_', 'buffer:1'] + UPDATES[:3] + ['strip', 'strip', 'setprop:k=1']))
+            # degenerate arguments, both modes: zero timedelta, the very same bounds / value again, None on None
+            for ip in ('0', '1'):
+                lines.append(head(kind, variant, nh, f'{T0}:{T0}', 'k=1', 'point') + ' ; ' + ' ; '.join(
+                    f'u:{u}:{ip}' for u in ['buffer:0', f'setdt:{T0}:{T0}', f'setdtd:{T0}', 'setprop:k=1', 'buffer:0', 'setprop:e=[]',
+                                           'setdt:_', 'setdt:_', 'buffer:0']))
+            # EVERY public observer of the class (enumerated from the live library), twice, with full re-observation and a
+            # deep snapshot of receiver and argument around each call; with and without time bounds; two argument kinds
+            obs = observers(og.template(kind, variant, nh, NSEQ.get(kind, 0), None, {}))
+            for dts, ak, pr in ((f'{T0}:{T0 + 60_000_000}', 'polygon', 'k=1,l=[1;2]'), ('_', 'linestring', '-')):
+                lines.append(head(kind, variant, nh, dts, pr, ak) + ' ; ' + ' ; '.join(obs + obs))
             # every read twice in a row, every predicate against every argument kind
             lines.append(head(kind, variant, nh, dt, 'k=1,l=[1;2]', 'polygon') + ' ; ' +
                          ' ; '.join(f'r:{r} ; r:{r}' for r in reads))
@@ -488,6 +692,16 @@ def gen_systematic():
                 lines.append(head(kind, variant, nh, '_', '-', ak) + ' ; ' +
                              ' ; '.join(f'q:{r}' for r in READS2 + READS2))
     return lines
+
+
+_OBSERVERS = {}
+
+
+def _observers_of(kind, variant):
+    if (kind, variant) not in _OBSERVERS:
+        nh = 1 if kind in og.HAS_HOLES else 0
+        _OBSERVERS[(kind, variant)] = observers(og.template(kind, variant, nh, NSEQ.get(kind, 0), None, {}))
+    return _OBSERVERS[(kind, variant)]
 
 
 def gen_random(run, n, maxlen):
@@ -503,8 +717,10 @@ def gen_random(run, n, maxlen):
         ops = []
         for _ in range(rng.randrange(1, maxlen + 1)):
             r = rng.random()
-            if r < 0.45:
+            if r < 0.3:
                 ops.append('r:' + rng.choice(READS[kind]))
+            elif r < 0.45:
+                ops.append(rng.choice(_observers_of(kind, variant)))      # any public observer of the class
             elif r < 0.6:
                 ops.append('q:' + rng.choice(READS2))
             else:
@@ -527,7 +743,7 @@ def check(run):
         if 'ret:' in a:
             t.append('res:ret')
         return t
-    run.run_cases('systematic-histories', gen_systematic(), impl, spec, tag=tag)
+    run.run_cases('systematic-histories', gen_systematic(run.quick), impl, spec, tag=tag)
     run.run_cases('random-histories', gen_random(run, run.scale(500, 9000), run.scale(8, 12)), impl, spec, tag=tag)
     run.run_cases('memo-slots', gen_memo(run), impl_memo, None,
                   tag=lambda ln, a: ['memo:' + ln.split()[1], 'memo-final:' + a.split()[-1]])
@@ -543,7 +759,10 @@ def check(run):
              'offset jumps inside the interval (hand-written tzinfo, tz database zone).  Conversions are handed caller-owned mutable '
              'arguments that live as long as the history and are shared by all its shapes: they must stay untouched, not be handed '
              'back, earlier results must stand, the current state must be rendered.  '
-             'Non-trivial = all; distinct by line.',
+             'EVERY public read-only attribute / method of every class (enumerated from the live library, also with k=, also through '
+             'the multi-shapes) is called twice with a deep snapshot of receiver and argument around each call; shapes handed out by '
+             'inplace=False (also for zero timedelta / the same bounds or value again / None on None), copy() and split() are updated in '
+             'every way afterwards and the receiver must not notice.  Non-trivial = all; distinct by line.',
         assumptions=['derived observations (bounds, centroid, area, shapely form, WKT, GeoJSON, polygon form) are compared against a '
                      'freshly constructed twin, not recomputed by the model: what they are is the subject of C03/C09/C13/C14; bounds '
                      'of vertex-defined kinds are also recomputed from the raw vertices',
